@@ -235,6 +235,15 @@ func runCheck(repo, prop, tier, fnFilter, outDir string, noReplay, verbose bool)
 	if st := e.immutableSweep(usedImmut, prop); st != nil {
 		ts = append(ts, st)
 	}
+	usedCI := map[string]bool{}
+	for _, t := range ts {
+		for k := range t.usedChanInv {
+			usedCI[k] = true
+		}
+	}
+	if st := e.chanInvSweep(usedCI, prop); st != nil {
+		ts = append(ts, st)
+	}
 	if len(ts) == 0 {
 		fmt.Fprintf(os.Stderr, "nsqvc: no function under contract serves %s\n", prop)
 		return 2
